@@ -47,5 +47,6 @@ check("bool rows of 2-d", lambda: s2()[da.from_array(np.arange(16) % 3 == 0, chu
 check("compute_chunk_sizes", lambda: (lambda y: (y.compute_chunk_sizes(), y.compute())[1])(s()[s() > 100]), ns[ns > 100])
 sr = lambda: da.sliding_window_view(da.from_array(np.arange(40.0), chunks=8), 25, axis=0).sum(axis=-1)  # noqa: E731
 check("reshape of a one-block advertisement", lambda: sr().reshape(-1, 1).compute(), sw(np.arange(40.0), 25).sum(axis=-1).reshape(-1, 1))
+check("mask of a rolling sum", lambda: (lambda d: d[d > 10].compute())(s()), ns[ns > 10])
 check("tsqr R", lambda: abs(da.linalg.tsqr(s()[:, None].astype(float))[1].compute()), abs(np.linalg.qr(ns[:, None].astype(float))[1]))
 sys.exit(1 if bad else 0)
